@@ -9,11 +9,16 @@ From Coq Require Import Lia.
 Local Open Scope N_scope.
 
 Section KMap.
-  Variable g : str -> str.            (* on @reference names *)
-  Variable fd : N -> N -> N.          (* on declaration indices, per module *)
+  Variable g : str -> str.                 (* on @reference names *)
+  Variable fdm : N -> N -> N * N.          (* on the positions (module, index) of declarations *)
+  Variable frm : N -> N -> N * N.          (* on the positions (module, node) of rec expressions *)
 
   Definition fk (k : rkey) : rkey :=
-    match k with KNamed x => KNamed (g x) | KDecl m i => KDecl m (fd m i) | KRec m i sc => KRec m i sc end.
+    match k with
+    | KNamed x => KNamed (g x)
+    | KDecl m i => KDecl (fst (fdm m i)) (snd (fdm m i))
+    | KRec m i sc => KRec (fst (frm m i)) (snd (frm m i)) sc
+    end.
 
   Fixpoint km_schema (s : schema) : schema :=
     match s with Schema e d t r x => Schema (km_sexpr e) d t r x end
@@ -70,7 +75,7 @@ Section KMap.
     | VOp o ss => VOp o (map km_schema ss)
     | VRef k v' a => VRef (fk k) (km_value v') a
     | VArr i => VArr (km_schema i)
-    | VLamExt m i => VLamExt m (fd m i)
+    | VLamExt m i => VLamExt (fst (fdm m i)) (snd (fdm m i))
     | VRecur k => VRecur (fk k)
     | _ => v
     end.
@@ -190,14 +195,31 @@ Section KMap.
 
   (** ** the state *)
   Hypothesis g_inj : forall x y, g x = g y -> x = y.
-  Hypothesis fd_inj : forall m i j, fd m i = fd m j -> i = j.
+  Hypothesis fdm_inj : forall m i m' i', fdm m i = fdm m' i' -> m = m' /\ i = i'.
+  Hypothesis frm_inj : forall m i m' i', frm m i = frm m' i' -> m = m' /\ i = i'.
+
+  Lemma pair_eqb (p q : N * N) : N.eqb (fst p) (fst q) && N.eqb (snd p) (snd q) = true <-> p = q.
+  Proof.
+    destruct p as [a b], q as [c d]. cbn [fst snd]. split.
+    - intros H. apply andb_prop in H as [H1 H2]. apply N.eqb_eq in H1, H2. congruence.
+    - intros [= -> ->]. rewrite !N.eqb_refl. reflexivity.
+  Qed.
+
+  Lemma map_eqb (f : N -> N -> N * N) (Hinj : forall m i m' i', f m i = f m' i' -> m = m' /\ i = i') m i m' i' :
+    N.eqb (fst (f m i)) (fst (f m' i')) && N.eqb (snd (f m i)) (snd (f m' i')) = N.eqb m m' && N.eqb i i'.
+  Proof.
+    destruct (N.eqb m m' && N.eqb i i') eqn:E.
+    - apply andb_prop in E as [E1 E2]. apply N.eqb_eq in E1, E2. subst. apply pair_eqb. reflexivity.
+    - destruct (N.eqb (fst (f m i)) (fst (f m' i')) && N.eqb (snd (f m i)) (snd (f m' i'))) eqn:E'; [|reflexivity].
+      apply pair_eqb in E'. apply Hinj in E' as [-> ->]. rewrite !N.eqb_refl in E. discriminate E.
+  Qed.
 
   Lemma fk_eqb a b : rkey_eqb (fk a) (fk b) = rkey_eqb a b.
   Proof.
     destruct a as [x|m i|m i sc], b as [y|m' i'|m' i' sc']; cbn [fk rkey_eqb]; try reflexivity.
     - destruct (N.eqb_spec x y) as [->|Hne]; [apply N.eqb_refl|]. apply N.eqb_neq. intros H. apply Hne, g_inj, H.
-    - destruct (N.eqb_spec m m') as [->|Hne]; cbn [andb]; [|reflexivity].
-      destruct (N.eqb_spec i i') as [->|Hne]; [apply N.eqb_refl|]. apply N.eqb_neq. intros H. apply Hne, (fd_inj m'), H.
+    - apply (map_eqb fdm fdm_inj).
+    - rewrite (map_eqb frm frm_inj). reflexivity.
   Qed.
 
   Lemma rget_km k r : rget (fk k) (km_refs r) = option_map (option_map km_aval) (rget k r).
@@ -246,11 +268,11 @@ Section KMap.
     | ELitStr x => ELitStr x
     | ELitNum x => ELitNum x
     | ELitStat x => ELitStat x
-    | EDecl m i => EDecl m (fd m i)
+    | EDecl m i => EDecl (fst (fdm m i)) (snd (fdm m i))
     | EConcat => EConcat
     | EBind x => EBind x
     | EApp f args => EApp (km_expr f) (map km_expr args)
-    | ERec m i x e' => ERec m i x (km_expr e')
+    | ERec m i x e' => ERec (fst (frm m i)) (snd (frm m i)) x (km_expr e')
     | EObj ps => EObj (map km_expr ps)
     | EProp name req e' => EProp name req (km_expr e')
     | EUnary b e' => EUnary b (km_expr e')
@@ -340,7 +362,7 @@ Section KMap.
 
   Variable lx : bool.
   Variables P P' : prog.
-  Hypothesis HP' : forall m i, get_decl P' m (fd m i) = option_map km_decl (get_decl P m i).
+  Hypothesis HP' : forall m i, get_decl P' (fst (fdm m i)) (snd (fdm m i)) = option_map km_decl (get_decl P m i).
 
   Theorem eval_km : forall n s e a, eval lx P' n (km_st s) (km_expr e) a = kres km_aval (eval lx P n s e a).
   Proof.
@@ -363,7 +385,7 @@ Section KMap.
       assert (Ecut : (match option_map g (d_ref d) with Some _ => true | None => false end) = (match d_ref d with Some _ => true | None => false end))
         by (destruct (d_ref d); reflexivity).
       rewrite Ecut. destruct ((match d_ref d with Some _ => true | None => false end) || d_rec d); [|apply IH].
-      assert (Ekey : match option_map g (d_ref d) with Some x => KNamed x | None => KDecl m (fd m i) end =
+      assert (Ekey : match option_map g (d_ref d) with Some x => KNamed x | None => KDecl (fst (fdm m i)) (snd (fdm m i)) end =
                      fk (match d_ref d with Some x => KNamed x | None => KDecl m i end)) by (destruct (d_ref d); reflexivity).
       rewrite Ekey. set (key := match d_ref d with Some x => KNamed x | None => KDecl m i end).
       change (refs (km_st s)) with (km_refs (refs s)). rewrite rget_km.
@@ -407,11 +429,11 @@ Section KMap.
       + rewrite push_scope_km, IH. apply kres_bind. intros s3 r. cbn [kres rmap fst snd]. rewrite pop_scope_km. reflexivity.
     - (* ERec *)
       rewrite top_scope_km.
-      change (push_scope (km_st s) [(x, (VRecur (KRec m i (top_scope_id s)), []))])
+      change (push_scope (km_st s) [(x, (VRecur (KRec (fst (frm m i)) (snd (frm m i)) (top_scope_id s)), []))])
         with (km_st (push_scope s [(x, (VRecur (KRec m i (top_scope_id s)), []))])).
       rewrite IH. apply kres_bind. intros s1 rhs. cbn [kres rmap fst snd].
       rewrite pop_scope_km. change (refs (km_st (pop_scope s1))) with (km_refs (refs (pop_scope s1))).
-      change (KRec m i (top_scope_id s)) with (fk (KRec m i (top_scope_id s))) at 1.
+      change (KRec (fst (frm m i)) (snd (frm m i)) (top_scope_id s)) with (fk (KRec m i (top_scope_id s))) at 1.
       change (Some (km_aval rhs)) with (option_map km_aval (Some rhs)). rewrite rinsert_km, set_refs_km. reflexivity.
     - (* EObj *)
       rewrite (map_st_km km_expr km_property _ _ (fun s0 x => step_km EV EV' IH0 km_property _ _ s0 x (fun v => cast_property_km (fst v)))).
@@ -486,14 +508,17 @@ Section KMap.
 End KMap.
 
 (** * renaming @references (C18) *)
+Definition idp (m i : N) : N * N := (m, i).
+Lemma idp_inj m i m' i' : idp m i = idp m' i' -> m = m' /\ i = i'.
+Proof. unfold idp. intros [= -> ->]. split; reflexivity. Qed.
+
 Section RenameRefs.
   Variable g : str -> str.
   Hypothesis g_inj : forall x y, g x = g y -> x = y.
-  Definition idx (m i : N) : N := i.
 
-  Lemma km_expr_id : forall e, km_expr idx e = e.
+  Lemma km_expr_id : forall e, km_expr idp idp e = e.
   Proof.
-    fix IH 1. intros e. destruct e; cbn [km_expr]; try reflexivity; try (rewrite (IH e); reflexivity).
+    fix IH 1. intros e. destruct e; cbn [km_expr idp fst snd]; try reflexivity; try (rewrite (IH e); reflexivity).
     - rewrite (IH e). f_equal. induction args as [|x args IHa]; [reflexivity|]. cbn [map]. rewrite (IH x), IHa. reflexivity.
     - f_equal. induction ps as [|x ps IHp]; [reflexivity|]. cbn [map]. rewrite (IH x), IHp. reflexivity.
     - f_equal. induction es as [|x es IHe]; [reflexivity|]. cbn [map]. rewrite (IH x), IHe. reflexivity.
@@ -511,35 +536,55 @@ Section RenameRefs.
   Qed.
 
   (** the program with every @reference name [x] written [g x]; uses are resolved, so only declarations change *)
-  Definition rename_refs (P : prog) : prog := map (map (km_decl g idx)) P.
+  Definition rename_refs (P : prog) : prog := map (map (km_decl g idp idp)) P.
 
-  Lemma get_decl_rename P m i : get_decl (rename_refs P) m (idx m i) = option_map (km_decl g idx) (get_decl P m i).
+  Lemma get_decl_rename P m i :
+    get_decl (rename_refs P) (fst (idp m i)) (snd (idp m i)) = option_map (km_decl g idp idp) (get_decl P m i).
   Proof.
-    unfold get_decl, rename_refs, idx. rewrite nth_error_map. destruct (nth_error P (N.to_nat m)) as [ds|]; cbn [option_map]; [|reflexivity].
+    unfold get_decl, rename_refs, idp. cbn [fst snd]. rewrite nth_error_map. destruct (nth_error P (N.to_nat m)) as [ds|]; cbn [option_map]; [|reflexivity].
     rewrite nth_error_map. reflexivity.
   Qed.
 
   Theorem rename_reference_keeps_document lx P n rs :
-    eval_program lx (rename_refs P) n rs = rmap (km_result g idx) (eval_program lx P n rs).
+    eval_program lx (rename_refs P) n rs = rmap (km_result g idp idp) (eval_program lx P n rs).
   Proof.
-    rewrite <- (eval_program_km g idx g_inj (fun m i j H => H) lx P (rename_refs P) (get_decl_rename P) n rs).
+    rewrite <- (eval_program_km g idp idp g_inj idp_inj idp_inj lx P (rename_refs P) (get_decl_rename P) n rs).
     f_equal. symmetry. rewrite <- (map_id rs) at 2. apply map_ext. intros x. apply km_expr_id.
   Qed.
 End RenameRefs.
 
-(** * permuting declarations (C05) *)
+(** * moving declarations: to other positions of their module, or to other modules (C05) *)
+Definition ids (x : str) : str := x.
+
+Section Move.
+  Variables fdm frm : N -> N -> N * N.
+  Hypothesis fdm_inj : forall m i m' i', fdm m i = fdm m' i' -> m = m' /\ i = i'.
+  Hypothesis frm_inj : forall m i m' i', frm m i = frm m' i' -> m = m' /\ i = i'.
+
+  (** [P'] is [P] with every declaration moved to the position [fdm] gives (possibly in another
+      module), every use re-addressed, and the rec expressions renumbered by [frm] *)
+  Definition moved (P P' : prog) : Prop :=
+    forall m i, get_decl P' (fst (fdm m i)) (snd (fdm m i)) = option_map (km_decl ids fdm frm) (get_decl P m i).
+
+  Theorem moving_declarations_is_free lx P P' n rs : moved P P' ->
+    eval_program lx P' n (map (km_expr fdm frm) rs) = rmap (km_result ids fdm frm) (eval_program lx P n rs).
+  Proof. intros H. exact (eval_program_km ids fdm frm (fun x y E => E) fdm_inj frm_inj lx P P' H n rs). Qed.
+End Move.
+
+(** permuting the declarations inside each module *)
 Section Permute.
   Variable fd : N -> N -> N.
   Hypothesis fd_inj : forall m i j, fd m i = fd m j -> i = j.
-  Definition ids (x : str) : str := x.
+  Definition within (m i : N) : N * N := (m, fd m i).
 
-  (** [P'] is [P] with the declarations of every module moved to the positions [fd] gives, and the uses re-indexed *)
-  Definition permuted (P P' : prog) : Prop :=
-    forall m i, get_decl P' m (fd m i) = option_map (km_decl ids fd) (get_decl P m i).
+  Lemma within_inj m i m' i' : within m i = within m' i' -> m = m' /\ i = i'.
+  Proof. unfold within. intros [= -> H]. split; [reflexivity|]. apply (fd_inj m'), H. Qed.
+
+  Definition permuted (P P' : prog) : Prop := moved within idp P P'.
 
   Theorem declaration_order_is_free lx P P' n rs : permuted P P' ->
-    eval_program lx P' n (map (km_expr fd) rs) = rmap (km_result ids fd) (eval_program lx P n rs).
-  Proof. intros H. exact (eval_program_km ids fd (fun x y E => E) fd_inj lx P P' H n rs). Qed.
+    eval_program lx P' n (map (km_expr within idp) rs) = rmap (km_result ids within idp) (eval_program lx P n rs).
+  Proof. apply (moving_declarations_is_free within idp within_inj idp_inj). Qed.
 End Permute.
 
 (** * non-vacuity *)
@@ -556,7 +601,7 @@ Example ex_rename_reference :
   rename_refs swap56 ex_ref_P <> ex_ref_P /\
   exists rels sc sc',
     eval_program false ex_ref_P 50 ex_ref_rs = Ok (rels, [(KNamed 5, sc)]) /\
-    eval_program false (rename_refs swap56 ex_ref_P) 50 ex_ref_rs = Ok (map (km_relation swap56 idx) rels, [(KNamed 6, sc')]).
+    eval_program false (rename_refs swap56 ex_ref_P) 50 ex_ref_rs = Ok (map (km_relation swap56 idp idp) rels, [(KNamed 6, sc')]).
 Proof. split; [discriminate|]. eexists _, _, _. split; vm_compute; reflexivity. Qed.
 
 (** [let t = { 'p num }; let f x = { 'q x, 'r t }; res /a on get -> <f t>;] and the two declarations swapped *)
@@ -575,7 +620,7 @@ Proof.
 Qed.
 Lemma ex_permuted : permuted swap01 ex_perm_P ex_perm_P'.
 Proof.
-  intros m i. unfold get_decl, ex_perm_P, ex_perm_P'.
+  intros m i. unfold within. cbn [fst snd]. unfold get_decl, ex_perm_P, ex_perm_P'.
   destruct m as [|m]; [|destruct (Pos2Nat.is_succ m) as [k Hk]; cbn [N.to_nat]; rewrite Hk; cbn [nth_error]; destruct k; reflexivity].
   cbn [N.to_nat nth_error]. unfold swap01.
   destruct i as [|[p|p|]]; try reflexivity.
@@ -587,5 +632,5 @@ Qed.
 Example ex_permute_declarations :
   ex_perm_P' <> ex_perm_P /\
   exists r, eval_program false ex_perm_P 50 ex_perm_rs = Ok r /\
-            eval_program false ex_perm_P' 50 (map (km_expr swap01) ex_perm_rs) = Ok (km_result ids swap01 r).
+            eval_program false ex_perm_P' 50 (map (km_expr (within swap01) idp) ex_perm_rs) = Ok (km_result ids (within swap01) idp r).
 Proof. split; [discriminate|]. eexists. split; vm_compute; reflexivity. Qed.
